@@ -405,8 +405,9 @@ def run(R):
     # the climbing loop: the Parser method that compares i32 precedences and reads the current token's precedence
     P = R.prog
     cands = []
-    for g in P.fns.values():
-        if g.spath.startswith(PARSER) and g.kind != "Closure":
+    for g0 in P.fns.values():
+        if g0.spath.startswith(PARSER) and g0.kind != "Closure" and (not PR.pinned_fns() or g0.spath in PR.pinned_fns()):
+            g = PR.view(P, g0)
             ncmp = len([1 for _, s_ in g.stmts() if s_["rv"]["k"] == "binop" and s_["rv"]["op"] in ("Lt", "Le", "Gt", "Ge") and s_["rv"].get("lty") == "i32"])
             if ncmp >= 1 and any(short(c.name) == PARSER + "get_token_precedence" for c in g.calls):
                 cands.append(g)
@@ -438,8 +439,9 @@ def run(R):
     _climb_exclusions(R, f, rec, p if not missing else None)
     # ---- prefix operators
     # the prefix-operator function: the Parser method that builds the Invert (NOT) node
-    ufs = [g for g in P.fns.values() if g.spath.startswith(PARSER) and
-           any(s_["rv"]["k"] == "aggr" and s_["rv"].get("variant") == "Invert" for _, s_ in g.stmts())]
+    pinned_ = PR.pinned_fns()
+    ufs = [PR.view(P, g) for g in P.fns.values() if g.spath.startswith(PARSER) and g.kind != "Closure" and (not pinned_ or g.spath in pinned_)]
+    ufs = [g for g in ufs if any(s_["rv"]["k"] == "aggr" and s_["rv"].get("variant") == "Invert" for _, s_ in g.stmts())]
     if len(ufs) != 1:
         R.violation("C13.prefix", "shape", "no single Parser method builds the NOT node (%d)" % len(ufs), [f.loc()])
         return
